@@ -87,6 +87,19 @@ CLAIMS["C17"] = dict(
    text="Decides structural necessary conditions of memory safety at the Python/C boundary and in the length checks that protect the decoders: no native status is dropped (Python or C side), output buffers have the length the native code is told, the OAEP/PKCS#1 decoders refuse exactly the lengths for which their index arithmetic would leave the buffers, raw pointers are not held across the release of their owner, multi-limb values are compared whole, loops over caller-sized objects use exclusive bounds. A whole-program bounds proof of the bignum/EC code is not in reach of this technique and is not claimed.",
    note="Reference edges for the C error discipline are frozen from the pinned tree's IR in vstat/spec/c_checked_calls.json (Engler-style: today's checked call sites are the reference); reviewed inclusive loops in vstat/props/c17_extra.py.")
 
+CLAIMS["C06"] = dict(
+   technique="guard conformance by abstract interpretation of the point constructors/decoders and DH entry points on distinguishing coordinates (region enumeration); curve-parameter conformance against the checker's own copies of the standards' constants and algebraic self-consistency (order, cofactor, generator on curve); C rules over the clang AST/IR for the ladder/scalar code (status propagation, whole-state copies, blinding buffers sized from the operand)",
+   text="Decides the structural necessary conditions of correct, validated point arithmetic: every public entry that takes a point (construct, import, key agreement, EdDSA/ECDSA verify inputs) refuses coordinates outside the field, points off the curve, the point at infinity and low-order X25519/X448 inputs with ValueError before any scalar multiplication; the curve tables hold the standards' parameters and are self-consistent; scalar clamping and encodings follow RFC 7748/8032; native statuses are propagated. Equality of the native group law with the mathematical one is not decided.",
+   note="Curve constants are re-derived/checked by the checker's own modular arithmetic in vstat/props/c06_extra.py.")
+CLAIMS["C14"] = dict(
+   technique="abstract interpretation (seeded constant propagation) of the Python code of the three Integer back-ends on one operand table, IntegerGMP over a stated model of the libgmp entry points and ctypes' c_ulong wrap-around, IntegerCustom over a model of monty_pow; results compared with the checker's number theory; sibling rules (all abstract operations implemented, range tests before c_ulong, common operand length for monty_pow); decisive-test analysis of test_probable_prime/generate_probable_prime",
+   text="Decides, for about 3400 operand rows per back-end placed on both sides of every fast-path limit in the wrappers (16/32/64-bit, 65536-bit shifts, 2^106 / 2^1024 for square roots), that the Python layer of IntegerNative, IntegerGMP and IntegerCustom returns the exact value, result type and documented exception; that test_probable_prime answers PROBABLY_PRIME only if neither Miller-Rabin nor Lucas answered COMPOSITE and generate_probable_prime only returns a candidate that passed. The wrappers touch operands only through these comparisons, so the regions are finite; exactness of libgmp and of the C Montgomery code, and that MR/Lucas as coded are the mathematical tests, are not decided.",
+   note="libgmp is outside the repository: vstat/gmpmodel.py states the documented semantics the wrapper relies on, function by function.")
+CLAIMS["C16"] = dict(
+   technique="sibling cross-checks: exported C entry points and IR prototypes of AES/AESNI and ghash_portable/ghash_clmul vs the Python cdef; abstract interpretation of the Python selection code over all (flag, availability, key length) configurations; key-length guard agreement by region enumeration on the C ASTs; AST rule that caller buffers are only touched with unaligned SIMD loads/stores; the three Integer back-ends interpreted on one operand table (value, result type, exception class) and compared with one reference",
+   text="Decides the structural necessary conditions of 'the selected variant never changes the result': both AES libraries and both GHASH libraries export the same entry points with the same prototypes and accept the same key lengths; use_aesni/use_clmul and library availability change neither outcome kind nor exception class and a handle is released by the library that created it; the accelerated code makes no alignment assumption about caller buffers; every Integer back-end matches one reference row by row (so they agree with each other) for value, result type and exception class. Bit-for-bit equality of the AES round functions / GHASH multipliers and of libgmp's arithmetic is not decided.",
+   note="One recorded finding: IntegerGMP refuses left shifts >= 65536 bits that the other back-ends compute (known_findings.json).")
+
 NOT_YET = {}
 
 ALL = ["C%02d" % i for i in range(1, 21)]
